@@ -4,7 +4,8 @@ func branch(pc ProgramCounter, b ProgramCounter, C bool, bitmask Bitmask, instru
 	switch {
 	case !C:
 		return ExitContinue, pc
-	case !bitmask.IsStartOfBasicBlock(b) && instruction.isOpcodeValid(b):
+	// a target beyond the code is never the start of a basic block
+	case !bitmask.IsStartOfBasicBlock(b) && (int(b) >= len(instruction) || instruction.isOpcodeValid(b)):
 		return ExitPanic, pc
 	default:
 		return ExitContinue, b
